@@ -240,6 +240,11 @@ theorem parseNumber_left2 (c : Cfg) (o : POpts) (hG : GenStrip c o) (s : List Na
     · intro x hx; rw [hsl] at hdp; rw [hdp] at hx; cases hx; exact hG.sepDp
   exact ⟨dsI, eI, fp, ep, hRI, hconI, hzI, hFL, hm, hep, hcntE, hres, heI, hvI, hfps.1, hfps.2, hNF, hNI⟩
 
+/-- the stored digit slices of a many-digits number re-scan consistently (so `numberBits` reads the digits of the
+stripped slices from them) -/
+def SlicesOK (c : Cfg) (n : Number) : Prop :=
+  n.manyDigits = true → SliceOK c .integer n.integer ∧ ∀ fd, n.fraction = some fd → SliceOK c .fraction fd
+
 /-- **`parse_number` accepted the whole input with separators ⟹ it accepts the whole stripped input, as the same
 number** — any separator predicates with consistent re-scan (`Rescan`) on the integer and fraction component. -/
 theorem number_strip_gen (c : Cfg) (o : POpts) (hG : GenStrip c o) (hresI : Rescan c .integer)
@@ -249,7 +254,7 @@ theorem number_strip_gen (c : Cfg) (o : POpts) (hG : GenStrip c o) (hresI : Resc
       (∀ x, s[b.index]? = some x → c.isSep x = true → peek c .integer b = .ok (some x, b)))
     (p neg fv : Bool) (n : Number) (cnt : Nat) (h : parseNumber c p o b neg fv = .ok (n, cnt))
     (hcnt : cnt = s.length) :
-    ∃ n', parseNumber c p o b' neg fv = .ok (n', (nonSep c s).length) ∧ NumRel c n n' := by
+    ∃ n', parseNumber c p o b' neg fv = .ok (n', (nonSep c s).length) ∧ NumRel c n n' ∧ SlicesOK c n := by
   have hsl : b.slc = s := hr.1
   have hvb : Bytes.Valid b := by unfold Bytes.Valid; rw [hsl]; exact hv
   obtain ⟨dsI, eI, fp, ep, hRI, hconI, hzI, hFL, hm, hep, hcntE, hres, heI, hvI, hfps1, hfps2, hNF, hNI⟩ :=
@@ -292,9 +297,10 @@ theorem number_strip_gen (c : Cfg) (o : POpts) (hG : GenStrip c o) (hresI : Resc
   by_cases hle : dsI.length + fp.nAfterDot ≤ u64Step c.feats c.mantissaRadix
   · rw [if_pos hle] at hres
     rw [if_pos hle]
-    refine ⟨_, rfl, ?_⟩
-    subst hres
-    simp only [NumRel, hsl, and_self]
+    refine ⟨_, rfl, ?_, ?_⟩
+    · subst hres
+      simp only [NumRel, hsl, and_self]
+    · subst hres; intro hmd; cases hmd
   · rw [if_neg hle] at hres
     rw [if_neg hle]
     -- the many-digits path
@@ -386,8 +392,11 @@ theorem number_strip_gen (c : Cfg) (o : POpts) (hG : GenStrip c o) (hresI : Resc
       rw [hmc] at hres
       simp only [Except.map, Except.ok.injEq, Prod.mk.injEq] at hres
       obtain ⟨g1, g2, _⟩ := manyClosed_fields _ _ _ _ _ _ _ _ _ _ _ _ _ _ _ _ _ hmc
-      refine ⟨res.1, rfl, ?_⟩
-      rw [← hres.1]
-      simp only [NumRel, g1, g2, and_self]
+      refine ⟨res.1, rfl, ?_, ?_⟩
+      · rw [← hres.1]
+        simp only [NumRel, g1, g2, and_self]
+      · rw [← hres.1]
+        intro _
+        exact ⟨by simpa [hsl] using hokI, hokF⟩
 
 end LexVerif.Proof.Sep
